@@ -658,6 +658,45 @@ def check_r5(facts, rep, crate):
     rep.floor(rid, "mid-chunk splits of a chain", n, 1)
 
 
+def check_r6(facts, rep, crate):
+    rid = "C20.R6"
+    rep.rule(rid, "chunk walk: the remaining-bytes counter of a walk over the chunks is decremented cumulatively by the length of the "
+                  "chunk just passed (X = X - len(chunk)), so that counter + bytes of the chunks passed = the requested position")
+    n = 0
+    for b in crate.bodies:
+        if "LongChain" not in b.path or "::tests::" in b.path:
+            continue
+        tr = Tracer(facts, b)
+        for bi, blk in enumerate(b.blocks):
+            if blk["cleanup"]:
+                continue
+            for s in blk["stmts"]:
+                if s["k"] != "Assign" or s["lhs"].get("p") or s["rv"]["k"] not in ("BinaryOp", "CheckedBinaryOp"):
+                    continue
+                v = strip(tr.rvalue(s["rv"]))
+                if v.kind != "bin" or not v[1].startswith("Sub"):
+                    continue
+                sub = strip(v[3])
+                if not any(x.kind == "call" and x[6] in ("len", "remaining") and "CowBytes" in x[2] and "Vec" not in x[2] for x in walk(sub)):
+                    continue
+                X = s["lhs"]["l"]
+                if b.locals[X]["s"] not in ("usize",):
+                    continue
+                n += 1
+                rep.analysed(b)
+                where = "%s (%s)" % (loc_str(s["loc"]), b.path)
+                a = strip(v[2])
+                cumulative = (a.kind == "cycle" and a[1] == X) or (a.kind == "phi" and any(y.kind == "cycle" and y[1] == X for y in walk(a)))
+                if cumulative:
+                    rep.ok(rid, "%s/%s" % (b.path, b.local_name(X)), where, "%s = %s - len(chunk)" % (b.local_name(X), b.local_name(X)))
+                else:
+                    rep.bad(rid, "%s/%s" % (b.path, b.local_name(X)), where,
+                            "the walk counter `%s` is recomputed as `%s - len(chunk)` instead of being decremented: after the second whole "
+                            "chunk it no longer equals (requested position - bytes passed), so the cut lands in the wrong place" % (
+                                b.local_name(X), fmt(a)[:40]))
+    rep.floor(rid, "cumulative walk-counter updates", n, 2)
+
+
 def check(facts, rep, tier, cfg):
     crate = facts.crate("cow_bytes")
     if crate is None:
@@ -668,3 +707,4 @@ def check(facts, rep, tier, cfg):
     check_r3(facts, rep, crate)
     check_r4(facts, rep, crate)
     check_r5(facts, rep, crate)
+    check_r6(facts, rep, crate)
